@@ -18,8 +18,12 @@ def knownFailing7 : List (Nat × Nat) := [(479, 0)]
 
 /-- php5.y production 74: `goto label;` — the label's position is that of the keyword
     (C05 pos-start:php5-goto-label, pinned by TestStmtGotoLabel);
-    production 500: same as php7's 479 -/
-def knownFailing5 : List (Nat × Nat) := [(74, 0), (500, 0)]
+    production 500: same as php7's 479;
+    productions 113 and 479, path 0 (`list()` / `array()` holding one empty item): not defects — under the
+    path condition `Key == nil && Val == nil && len(Items) == 1` the action resets `Items` to nil, and the
+    item it drops is the empty `ExprArrayItem`, which carries no token; the coverage obligation, which
+    does not interpret the condition, cannot see that (the executable model does: Model/Term.lean) -/
+def knownFailing5 : List (Nat × Nat) := [(74, 0), (113, 0), (479, 0), (500, 0)]
 
 /-- php7.y production 293 (property_list/… re-assigns `$2` before storing it) -/
 def assumed7 : List (Nat × Nat) := [(293, 0), (293, 1), (293, 2), (293, 3)]
